@@ -144,6 +144,8 @@ def ap_check_tx_validity():
             C("exist", "res is Ok ==> forall|i: int| 0 <= i < tx.inputs@.len() ==> relevant_coins@.contains_key(#[trigger] tx.inputs@[i])", "C02", "C04", "C19"),
             C("unlocked", "res is Ok && !lock_legacy(this.network, this.height) ==> forall|i: int| 0 <= i < tx.inputs@.len() ==> !new_stakes@.contains_key((#[trigger] tx.inputs@[i]).txhash) && !this.stakes@.contains_key(tx.inputs@[i].txhash)", "C13", "C02"),
             C("approved", "res is Ok ==> forall|i: int| 0 <= i < tx.inputs@.len() ==> script_approves(spec_covenants_map(*tx), relevant_coins@[tx.inputs@[i]].coin_data.covhash, *tx, #[trigger] env_of(*tx, relevant_coins@, i, spec_last_header(*this)))", "C04", "C02", "C19"),
+            C("pos", "res is Ok ==> forall|i: int| 0 <= i < tx.inputs@.len() ==> (#[trigger] env_of(*tx, relevant_coins@, i, spec_last_header(*this))).spender_index as int == i", "C04",
+              note="the position among the inputs that a covenant is told IS the input's position (the code passes `position as u8`); holds under the envelope `small`, fails without it: known finding F-C04-index"),
             C("balanced", "res is Ok ==> balanced(tx.kind, in_sums(tx.inputs@, relevant_coins@, tx.inputs@.len() as int), spec_total_outputs(*tx))", "C01", "C02"),
             C("errkind", "res is Err ==> !(res->Err_0 is WrongHeader)", "C06", char=True),
             C("locked_err", "(exists|i: int| 0 <= i < tx.inputs@.len() && (new_stakes@.contains_key((#[trigger] tx.inputs@[i]).txhash) || this.stakes@.contains_key(tx.inputs@[i].txhash))) && !lock_legacy(this.network, this.height) ==> res is Err", "C13"),
